@@ -144,7 +144,8 @@ typedef struct vp_gfiber {
   _Atomic uint64_t wakeups;        // SCHEDULE events
   _Atomic uintptr_t queued_sched;  // scheduler it was last pushed to
   _Atomic uint64_t queued_mark;
-  _Atomic long mark_gen;    // that scheduler's switch counter at push time
+  _Atomic long mark_gen;
+  _Atomic uint64_t skips;  // times the scheduler popped it while its suspension was still being completed and put it back    // that scheduler's switch counter at push time
   _Atomic uint64_t sleep_wake_tick;
   _Atomic int last_thread;
   _Atomic uint64_t migrations;
